@@ -52,8 +52,22 @@ def regen_specificity(status):
     _one('specificity_tables', 'TallyVerif/Gen/Specificity.lean', 'TallyVerif.Gen.Specificity', produce, status)
 
 
+def regen_expr_tables(status):
+    from .translate import expr_tables
+
+    def produce():
+        src = common.read(os.path.join(common.SRC, 'expr_parser.py'))
+        text, meta = expr_tables.translate(src)
+        meta = {k: v for k, v in meta.items() if k in ('allowedNodes', 'functionNames', 'caps')}
+        meta['input_sha'] = common.sha(text)
+        return text, meta
+
+    _one('expr_tables', 'TallyVerif/Gen/ExprTables.lean', 'TallyVerif.Gen.ExprTables', produce, status)
+
+
 def regen_all():
     status = {}
     regen_classification(status)
     regen_specificity(status)
+    regen_expr_tables(status)
     return status
